@@ -64,6 +64,7 @@ class Printer:
     self.pol = policy or Policy()
     self.toks = []
     self._b = None
+    self.depth = 0     # nesting depth of combine / negation bodies
 
   # -- token emission --------------------------------------------------------------------------
   def t(self, text):
@@ -196,15 +197,19 @@ class Printer:
     op, inner, body = e[1], e[2], e[3]
     if style == 'braces':
       self.t(ir.COMB_NAME.get(op, op.rstrip('='))); self.glue(); self.t('{')
+      self.depth += 1
       self.expr(inner)
       self.sp(); self.t(':-'); self.sp()
       self.prop(body, top=True)
+      self.depth -= 1
       self.t('}')
     else:
       self.t('('); self.t('combine'); self.kw(); self.t(op); self.sp()
+      self.depth += 1
       self.expr(inner)
       self.sp(); self.t(':-'); self.sp()
       self.prop(body, top=True)
+      self.depth -= 1
       self.t(')')
 
   def named_field(self, f, x, agg=None):
@@ -280,16 +285,20 @@ class Printer:
           style = self.pol.pick('comb')
           if style == 'opeq':
             self.t(p[2][1]); self.sp(); self.t(p[3][1]); self.sp(); self.t('(')
+            self.depth += 1
             self.expr(p[3][2]); self.sp(); self.t(':-'); self.sp(); self.prop(p[3][3], top=True)
+            self.depth -= 1
             self.t(')')
             return
           self.t(p[2][1]); self.sp(); self.t(self.pol.pick('assign')); self.sp()
           self.comb(p[3], style)
           return
-        op = self.pol.pick('assign')
+        # the documented use of `=` in a proposition is assignment to a variable (`volume = side * side`)
+        op = self.pol.pick('assign') if p[2][0] == 'var' else '=='
       self.expr(p[2], 4, False, True); self.sp(); self.t(op); self.sp(); self.expr(p[3], 4, True, True)
     elif k == 'in':
-      if p[2][0] == 'list' and len(p[2][1]) >= 1 and self.pol.pick('in_list') == 'or':
+      if (p[2][0] == 'list' and len(p[2][1]) >= 1 and self.depth == 0 and
+          self.pol.pick('in_list') == 'or'):      # disjunction is not allowed inside aggregation / negation
         self.t('(')
         for i, x in enumerate(p[2][1]):
           if i:
@@ -299,6 +308,26 @@ class Printer:
       else:
         self.expr(p[1], 99, False, True); self.kw(); self.t('in'); self.kw(); self.expr(p[2], 99, True, True)
     elif k == 'not':
+      self.depth += 1
+      try:
+        self._print_not(p)
+      finally:
+        self.depth -= 1
+    elif k == 'imp':
+      self.depth += 1
+      try:
+        self._print_imp(p)
+      finally:
+        self.depth -= 1
+    elif k == 'isnull':
+      self.expr(p[1], 99, False, True); self.kw(); self.t('is'); self.kw(); self.t('null')
+    elif k == 'notnull':
+      self.expr(p[1], 99, False, True); self.kw(); self.t('is not'); self.kw(); self.t('null')
+    else:
+      raise ValueError('cannot print prop %r' % (p,))
+
+  def _print_not(self, p):
+    if True:
       if self.pol.pick('neg') == 'tilde':
         self.t('~')
         if p[1][0] == 'call':
@@ -309,7 +338,9 @@ class Printer:
         self.t('Max'); self.glue(); self.t('{'); self.t('1'); self.sp(); self.t(':-'); self.sp()
         self.prop(p[1], top=True)
         self.t('}'); self.kw(); self.t('is'); self.kw(); self.t('null')
-    elif k == 'imp':
+
+  def _print_imp(self, p):
+    if True:
       if self.pol.pick('imp') == 'arrow':
         self.t('(')
         self.prop(p[1]); self.sp(); self.t('=>'); self.sp(); self.prop(p[2])
@@ -318,12 +349,6 @@ class Printer:
         self.t('~'); self.t('(')
         self.prop(p[1], in_and=True); self.t(','); self.sp(); self.t('~'); self.t('('); self.prop(p[2], top=True); self.t(')')
         self.t(')')
-    elif k == 'isnull':
-      self.expr(p[1], 99, False, True); self.kw(); self.t('is'); self.kw(); self.t('null')
-    elif k == 'notnull':
-      self.expr(p[1], 99, False, True); self.kw(); self.t('is not'); self.kw(); self.t('null')
-    else:
-      raise ValueError('cannot print prop %r' % (p,))
 
   # -- statements ------------------------------------------------------------------------------
   def rule(self, r):
